@@ -199,7 +199,7 @@ def variable_to_string(variable_type, var_value):
         try:
             # everything else just gets a string value
             return str(var_value)
-        except Exception:
+        except BaseException:
             # it is possible for str to fail if there is a custom __str__ function
             return f'{type(var_value)}@{id(var_value)}'
 
@@ -288,7 +288,13 @@ def process_child_nodes(
             var_collector.append_child(variable_id, child)
 
     # scan the child based on type
-    return find_children_for_parent(var_collector, VariableParent(), var_value, variable_type)
+    try:
+        return find_children_for_parent(var_collector, VariableParent(), var_value, variable_type)
+    except BaseException:
+        # looking at the attributes of user types runs user code (__getattribute__, properties, ...) that can fail;
+        # the value itself is already recorded, it just has no children
+        logging.debug("Cannot collect children of %s", variable_type)
+        return []
 
 
 def correct_names(name, val):
@@ -363,7 +369,7 @@ def key_name(key) -> str:
         return key
     try:
         return str(key)
-    except Exception:
+    except BaseException:
         return f'{type(key)}@{id(key)}'
 
 
